@@ -403,3 +403,45 @@ class XNS:
 
 
 X = XNS()
+
+
+# ---- BIT STRING: bits as a sequence of 0/1, packed eight to the octet, segments of c bits --------------------------------
+zeros = RecFunction('zeros', I, S)
+_k = Int('_k')
+RecAddDefinition(zeros, [_k], If(_k <= 0, Empty(S), Concat(Unit(IntVal(0)), zeros(_k - 1))))
+pack8 = z3.Function('pack8', S, S)          # octets of a bit sequence whose length is a multiple of 8 (most significant bit first)
+_c = Int('_c')
+segs_from = RecFunction('bit_segments_from', S, I, I, S)
+RecAddDefinition(segs_from, [_s, _pos, _c],
+                 If(z3.Or(_pos >= Length(_s), _c <= 0, _pos < 0), Empty(S),
+                    Concat(enc_chunk(py_slice(_s, _pos, If(_pos + _c <= Length(_s), _pos + _c, Length(_s)))),
+                           segs_from(_s, _pos + _c, _c))))
+
+
+def _bit_segments_from(ex, s, pos, c):
+    """encodings of the segments s[pos:pos+c], s[pos+c:pos+2c], ... up to the end of s (the last one shorter), concatenated"""
+    return any_(segs_from(z_of(s), toint(pos), toint(c)))
+
+
+def _lemma_bit_segments_step(ex, s, pos, c):
+    """definition of bit_segments_from unfolded once at pos"""
+    z, pos, c = z_of(s), toint(pos), toint(c)
+    n = Length(z)
+    nxt = If(pos + c <= n, pos + c, n)
+    return Implies(And(pos >= 0, pos < n, c > 0),
+                   And(segs_from(z, pos, c) == Concat(enc_chunk(py_slice(z, pos, nxt)), segs_from(z, pos + c, c)),
+                       segs_from(z, nxt, c) == segs_from(z, pos + c, c)))
+
+
+def _lemma_prefix_slice(ex, whole, prefix, lo, hi):
+    """a slice that ends inside a prefix of a sequence is the same slice of the prefix"""
+    w, p, lo, hi = z_of(whole), z_of(prefix), toint(lo), toint(hi)
+    return Implies(And(z3.Extract(w, IntVal(0), Length(p)) == p, Length(p) <= Length(w), 0 <= lo, lo <= hi, hi <= Length(p)),
+                   py_slice(w, lo, hi) == py_slice(p, lo, hi))
+
+
+X.bit_segments_from = staticmethod(_bit_segments_from)
+X.lemma_bit_segments_step = staticmethod(_lemma_bit_segments_step)
+X.lemma_prefix_slice = staticmethod(_lemma_prefix_slice)
+X.zeros = staticmethod(lambda ex, k: any_(zeros(toint(k))))
+X.pack8 = staticmethod(lambda ex, s: any_(pack8(z_of(s))))
